@@ -29,7 +29,7 @@ Faults == {[loader |-> "grb", kind |-> "edit8", at |-> o, val |-> v, from |-> w]
           \cup {[loader |-> "grb", kind |-> "cut", at |-> f, val |-> "0", from |-> "start"] : f \in CutFractions}
           \cup {[loader |-> "grb", kind |-> "splice", at |-> f, val |-> g, from |-> "start"] : f \in CutFractions, g \in {"head", "tail", "self"}}
           \cup {[loader |-> l, kind |-> k, at |-> c, val |-> v, from |-> "start"] : l \in {"grl", "jsonrule", "jsonfact"}, k \in {"cut", "insert", "repeat"},
-                   c \in TextCuts, v \in {"bignum", "deep", "quote", "nul", "brace", "longname", "unicode", "blank", "longchain", "selchain"}}
+                   c \in TextCuts, v \in {"bignum", "deep", "quote", "nul", "brace", "longname", "unicode", "blank", "longchain", "selchain", "deepcmp", "nullroot"}}
           \* every operator of the JSON rule language (19 of them, by index) with an empty / null / one-element / wrong-typed operand list
           \cup {[loader |-> "jsonrule", kind |-> "emptyop", at |-> i, val |-> v, from |-> "start"] : i \in 0..18, v \in {"empty", "null", "one", "object", "string"}}
           \* two faults in one text: an early one that makes the loader give up on a rule (and may leave its internal state half way),
